@@ -1187,4 +1187,108 @@ example :
 
 end WorldExamples
 
+/-! ## 10. `spec.desiredState` is a string
+
+Sections 4, 7, 8, 9 give a revision a Boolean role. The field is a free-form string without
+enum or default: besides `Active` and `Inactive` it is EMPTY for a revision that was never
+activated (`revisionActivationPolicy: Manual`), and it may be anything a user typed (`active`,
+`ACTIVE`, `Inactive ` …). `reconcileState` (Model/C16World.lean) is `Reconciler.Reconcile`
+reading the string as the code does: deactivation (ReleaseObjects, shortcut) iff it is exactly
+`Inactive`; `control` iff it is exactly `Active`; anything else: no deactivation, Establish
+without control. The role theorems below quantify over the desired state AS A STRING: a
+revision is active iff its desired state is exactly `Active`. -/
+
+/-- the two constants are those of the current tree (`v1.PackageRevisionActive/Inactive`) -/
+theorem desired_state_constants_match_library :
+    activeState = Xp.Gen.c16DesiredActive ∧ inactiveState = Xp.Gen.c16DesiredInactive := by decide
+
+/-- for the two proper values `reconcileState` is `reconcileRevV` with the Boolean role -/
+theorem reconcile_state_proper_values (sys : Sys) (p : Parent) (objs : List Desired) (e : Env) (w : World) :
+    reconcileState sys p objs activeState e w = reconcileRevV sys ⟨p, true, objs⟩ e w ∧
+    reconcileState sys p objs inactiveState e w = reconcileRevV sys ⟨p, false, objs⟩ e w := by
+  have hne : activeState ≠ inactiveState := by decide
+  constructor
+  · unfold reconcileState
+    rw [if_neg hne, if_pos rfl]
+  · unfold reconcileState
+    rw [if_pos rfl]
+
+/-- **Only a revision whose desired state is exactly `Active` creates objects or becomes
+controller** — for EVERY string `ds` (empty, garbage, case variants), in the world (third party
+anywhere, stale reads): after one reconcile, every object has a key that was present before, or
+that the third party put, or `ds` is exactly `Active` and the revision owns it; and every
+controller reference was on the object of that key before, or was written by the third party, or
+is the revision's own and `ds` is exactly `Active`. -/
+theorem only_exactly_active_creates_or_controls (sys : Sys) (p : Parent) (objs : List Desired) (ds : String)
+    (e : Env) (w : World) (hw : WF sys.store) (hst : StaleOK sys.store w.v (pick objs e.vorder)) :
+    ∀ o' ∈ (reconcileState sys p objs ds e w).1.store.objs,
+      ((∃ o ∈ sys.store.objs, o.key = o'.key) ∨ (∃ a, w.Puts a ∧ a.key = o'.key) ∨
+        (ds = activeState ∧ hasUid o'.owners p.uid)) ∧
+      ∀ u, ctrl o'.owners u →
+        (∃ o ∈ sys.store.objs, o.key = o'.key ∧ ctrl o.owners u) ∨ (ds = activeState ∧ u = p.uid) ∨
+        (∃ a, w.Puts a ∧ a.key = o'.key ∧ ctrl a.owners u) := by
+  intro o' ho'
+  have g := ((GInv.init sys.store (fun u => ds = activeState ∧ u = p.uid) w.Puts hw).reconcileS p objs ds e w hst
+    (fun h => ⟨h, rfl⟩) (fun _ h => h)).good o' ho'
+  constructor
+  · rcases g.origin with h | h | ⟨u, ⟨hd, hu⟩, hh⟩
+    · exact Or.inl h
+    · exact Or.inr (Or.inl h)
+    · exact Or.inr (Or.inr ⟨hd, hu ▸ hh⟩)
+  · exact g.ctrls
+
+/-- **A revision whose desired state is anything but exactly `Active` issues updates only**: not
+even an attempt to create, whatever the string, the interference and the cache. -/
+theorem non_active_issues_updates_only (sys : Sys) (p : Parent) (objs : List Desired) (ds : String)
+    (e : Env) (w : World) (hw : WF sys.store) (hds : ds ≠ activeState) :
+    ∃ new, (reconcileState sys p objs ds e w).1.store.log = sys.store.log ++ new ∧ ∀ x ∈ new, x.verb = .update := by
+  obtain ⟨new, he, hn⟩ := reconcileState_log sys p objs ds e w hw hds
+  exact ⟨new, he, fun x h => (hn x h).resolve_right (by simp)⟩
+
+/-- **History corollary with string-valued desired states** (induction over the history): the
+store stays well formed; a controller reference at the end was there at the start, or belongs to
+a revision reconciled at some step with desired state exactly `Active`, or was written by the
+third party; an object at the end has a key present at the start, or put by the third party, or
+is owned by a revision that was reconciled with desired state exactly `Active`. -/
+theorem history_roles_state (sys : Sys) (h : List SStep) (hw : WF sys.store) (hok : WorldOKS sys h) :
+    let s' := (runHistoryS sys h).store
+    WF s' ∧
+    (∀ o' ∈ s'.objs, ∀ u, ctrl o'.owners u →
+        (∃ o ∈ sys.store.objs, o.key = o'.key ∧ ctrl o.owners u) ∨ ActiveInS h u ∨
+        (∃ a, PutsInS h a ∧ a.key = o'.key ∧ ctrl a.owners u)) ∧
+    (∀ o' ∈ s'.objs, (∃ o ∈ sys.store.objs, o.key = o'.key) ∨ (∃ a, PutsInS h a ∧ a.key = o'.key) ∨
+        (∃ u, ActiveInS h u ∧ hasUid o'.owners u)) := by
+  have g := runHistoryS_ginv sys.store.objs (ActiveInS h) (PutsInS h) h sys hok (fun _ h => h) (fun _ h => h)
+    (GInv.init sys.store _ _ hw)
+  exact ⟨g.wf, fun o' ho' => (g.good o' ho').ctrls, fun o' ho' => (g.good o' ho').origin⟩
+
+section StateExamples
+
+/-- Manual activation policy: revision 11 was never activated (desired state ""), the objects of
+its package do not exist: it creates nothing, reports success and records the references -/
+example :
+    let r := reconcileState ⟨⟨[], 1, []⟩, fun _ => []⟩ exRev11 exPkg "" exEnv2 {}
+    r.2 = .ok () ∧ r.1.store.objs = [] ∧ r.1.store.log = [] := by decide
+
+/-- … the objects exist (controlled by revision 10): it adds itself as a plain owner, no more -/
+example :
+    (reconcileState exSys3 exRev11 exPkg "" exEnv2 {}).1.store.objs.map (·.owners) =
+      [[⟨10, some true, some true⟩, ⟨1, some false, some true⟩, ⟨11, none, none⟩],
+       [⟨10, some true, some true⟩, ⟨1, some false, some true⟩, ⟨11, none, none⟩]] := by decide
+
+/-- a case variant is not `Active` either; exactly `Active` does create (the statements discriminate) -/
+example :
+    (reconcileState ⟨⟨[], 1, []⟩, fun _ => []⟩ exRev11 exPkg "active" exEnv2 {}).1.store.objs = [] ∧
+    (reconcileState ⟨⟨[], 1, []⟩, fun _ => []⟩ exRev11 exPkg "Inactive " exEnv2 {}).1.store.objs = [] ∧
+    (reconcileState ⟨⟨[], 1, []⟩, fun _ => []⟩ exRev11 exPkg "Active" exEnv2 {}).1.store.objs.length = 2 := by decide
+
+/-- unlike `Inactive`, the empty state does not release what `status.objectRefs` lists beyond the
+package: revision 10 (healthy, lists `b`, `c`) with desired state "" and a package of `b` only
+keeps control of `c` — it was not deactivated -/
+example :
+    (reconcileState exSys3 exRev10 [{ key := "Composition/b", body := 1 }] "" exEnv2 {}).1.store.objs.map (·.owners) =
+      [[⟨10, none, none⟩, ⟨1, some false, some true⟩], [⟨10, some true, some true⟩, ⟨1, some false, some true⟩]] := by decide
+
+end StateExamples
+
 end Xp.C16
